@@ -2,6 +2,7 @@ package main
 
 import (
 	"fmt"
+	"os"
 	"go/constant"
 	"go/token"
 	"go/types"
@@ -602,6 +603,9 @@ func (ex *Exec) runInit(pkg *ssa.Package) {
 			break
 		}
 	}
+	if os.Getenv("VERIF_DEBUG_INIT") != "" {
+		fmt.Fprintf(os.Stderr, "init %s: state=%v frames=%d budget=%d\n", pkg.Pkg.Path(), th.state, len(th.frames), budget)
+	}
 	ex.lenient--
 	ex.cur = saved
 }
@@ -617,26 +621,48 @@ func (ex *Exec) lenientStep(th *Thread) {
 					panic(r)
 				}
 			}
-			if len(th.frames) == 0 {
-				return
+			if os.Getenv("VERIF_DEBUG_INIT") != "" {
+				fmt.Fprintf(os.Stderr, "lenient-init %s: %v\n", th.fnName, r)
 			}
-			th.frames = th.frames[:1]
-			fr := th.frames[0]
-			fr.unwinding = false
-			th.panicking = false
-			if fr.pc < len(fr.block.Instrs) {
-				in := fr.block.Instrs[fr.pc]
-				if call, ok := in.(*ssa.Call); ok {
-					ex.set(fr, call, ex.noopResult(call.Common().Signature()))
-				} else if v, ok := in.(ssa.Value); ok {
-					ex.set(fr, v, ex.zeroOrOpaque(v.Type()))
-				}
-				ex.stubsHit["lenient-init:"+fr.fn.Pkg.Pkg.Path()] = true
-				fr.pc++
-			}
+			ex.lenientAbandon(th)
 		}
 	}()
+	if os.Getenv("VERIF_DEBUG_INIT") == "2" && len(th.frames) > 0 {
+		fr := th.frames[len(th.frames)-1]
+		if fr.pc < len(fr.block.Instrs) {
+			fmt.Fprintf(os.Stderr, "  [%s b%d] %v\n", fr.fn.Name(), fr.block.Index, fr.block.Instrs[fr.pc])
+		}
+	}
 	ex.step(th)
+	// a Go panic raised inside an initializer's callee (nil hook variables of packages whose own
+	// initializer is skipped, ...) is treated like an uninterpretable construct
+	if th.panicking && len(th.frames) == 1 && th.frames[0].unwinding && len(th.frames[0].defers) == 0 {
+		if os.Getenv("VERIF_DEBUG_INIT") != "" {
+			fmt.Fprintf(os.Stderr, "lenient-init %s: go panic in callee: %s\n", th.fnName, th.panicMsg)
+		}
+		ex.lenientAbandon(th)
+	}
+}
+
+func (ex *Exec) lenientAbandon(th *Thread) {
+	if len(th.frames) == 0 {
+		return
+	}
+	th.frames = th.frames[:1]
+	fr := th.frames[0]
+	fr.unwinding = false
+	th.panicking = false
+	th.state = tRunnable
+	if fr.pc < len(fr.block.Instrs) {
+		in := fr.block.Instrs[fr.pc]
+		if call, ok := in.(*ssa.Call); ok {
+			ex.set(fr, call, ex.noopResult(call.Common().Signature()))
+		} else if v, ok := in.(ssa.Value); ok {
+			ex.set(fr, v, ex.zeroOrOpaque(v.Type()))
+		}
+		ex.stubsHit["lenient-init:"+fr.fn.Pkg.Pkg.Path()] = true
+		fr.pc++
+	}
 }
 
 func (ex *Exec) zeroOrOpaque(t types.Type) Value {
